@@ -1832,3 +1832,80 @@ pub fn raw_lzma_decompress_position() {
 pub fn sym_conformance_allprops() {
     one_symbol::<3145728, 1, true>()
 }
+
+//@ harness props=C12,C01 tier=quick unwind=8 unwindset=process_mode:6,default_read_exact:4,extend_with:3 mem_gb=6 timeout=600 native=no
+//@ bound: LzmaDecoder::decompress with dictionary size 2, three 1-byte abstract literals, sink failing on its first write (the flush at the window wrap): Err, nothing written after the failure
+#[cfg_attr(kani, kani::proof)]
+#[cfg_attr(kani, kani::stub(std::fmt::format, crate::verif_common::stub_format))]
+#[cfg_attr(kani, kani::stub(std::io::Error::is_interrupted, crate::verif_common::stub_not_interrupted))]
+#[cfg_attr(kani, kani::stub(crate::decode::lzma::DecoderState::process_next_inner, crate::decode::lzma::verif_h::abs_symbol))]
+#[cfg_attr(kani, kani::stub(crate::decode::lzbuffer::LzCircularBuffer::from_stream, crate::decode::lzbuffer::verif_h::circ_from_stream_with_capacity))]
+pub fn raw_lzma_decompress_sink_fails_at_wrap() {
+    decompress_wrap::<true>()
+}
+
+//@ harness props=C12,C01 tier=quick unwind=8 unwindset=process_mode:6,default_read_exact:4,extend_with:3 mem_gb=6 timeout=600 native=no opt_covers=sink_failed_at_wrap
+//@ bound: LzmaDecoder::decompress with dictionary size 2, three 1-byte abstract literals, healthy sink: output across the window wrap, two writes, flush
+#[cfg_attr(kani, kani::proof)]
+#[cfg_attr(kani, kani::stub(std::fmt::format, crate::verif_common::stub_format))]
+#[cfg_attr(kani, kani::stub(std::io::Error::is_interrupted, crate::verif_common::stub_not_interrupted))]
+#[cfg_attr(kani, kani::stub(crate::decode::lzma::DecoderState::process_next_inner, crate::decode::lzma::verif_h::abs_symbol))]
+#[cfg_attr(kani, kani::stub(crate::decode::lzbuffer::LzCircularBuffer::from_stream, crate::decode::lzbuffer::verif_h::circ_from_stream_with_capacity))]
+pub fn raw_lzma_decompress_across_wrap() {
+    decompress_wrap::<false>()
+}
+
+fn decompress_wrap<const FAIL: bool>() {
+    let mut t = Tape::<32>::new();
+    let f = [t.u8(), t.u8(), t.u8(), t.u8(), t.u8(), t.u8(), t.u8(), t.u8()];
+    let fail = FAIL;
+    let mut st = light_state::<0>(LzmaProperties { lc: 0, lp: 0, pb: 0 }, Some(3));
+    set_script(&mut st, [script(1, K_LIT), script(1, K_LIT), script(1, K_LIT), script(20, K_LIT)]);
+    let mut dec = LzmaDecoder {
+        params: LzmaParams { properties: LzmaProperties { lc: 0, lp: 0, pb: 0 }, dict_size: 2, unpacked_size: Some(3) },
+        memlimit: usize::MAX,
+        state: st,
+    };
+    let mut rd = ArrReader::<8>::new(f, 8);
+    let mut sink = if fail { RecSink::<8>::failing(0) } else { RecSink::<8>::new() };
+    let r = dec.decompress(&mut rd, &mut sink);
+    let ok = r.is_ok();
+    forget(r);
+    if fail {
+        vassert!(!ok, "one-shot decoder: a sink failing at the window wrap is reported");
+        vassert!(!sink.write_after_fail, "one-shot decoder: nothing is written after the sink failed (no second flush of the same window)");
+        vassert!(sink.len == 0, "one-shot decoder: the failed sink recorded nothing, so accepted bytes are trivially a prefix");
+    } else {
+        vassert!(ok, "one-shot decoder: decodes across a window wrap");
+        vassert!(sink.len == 3 && sink.buf[0] == 0 && sink.buf[2] == 0, "one-shot decoder: all three bytes delivered (first ^ last of a 1-byte symbol is 0)");
+        vassert!(sink.writes == 2, "one-shot decoder: one flush at the wrap, one at finish");
+        vassert!(sink.flushes >= 1, "one-shot decoder: sink flushed");
+    }
+    vcover!(fail, "sink_failed_at_wrap");
+    forget(dec);
+}
+
+
+// ----- scripted stand-in for DecoderState::process (used by the Stream::finish glue harness) -----
+pub static PR_CALLS: std::sync::atomic::AtomicUsize = std::sync::atomic::AtomicUsize::new(0);
+pub static PR_LEN: std::sync::atomic::AtomicUsize = std::sync::atomic::AtomicUsize::new(usize::MAX);
+pub static PR_FIRST: std::sync::atomic::AtomicUsize = std::sync::atomic::AtomicUsize::new(usize::MAX);
+impl DecoderState {
+    /// records how many input bytes it is given (and the first one), consumes them, succeeds
+    pub fn scripted_process<W: io::Write, LZB: LzBuffer<W>, R: io::BufRead>(
+        &mut self,
+        _output: &mut LZB,
+        rangecoder: &mut RangeDecoder<'_, R>,
+    ) -> error::Result<()> {
+        use std::sync::atomic::Ordering;
+        PR_CALLS.store(PR_CALLS.load(Ordering::Relaxed) + 1, Ordering::Relaxed);
+        let (n, b0) = match rangecoder.stream.fill_buf() {
+            Ok(b) => (b.len(), if b.is_empty() { 0usize } else { b[0] as usize }),
+            Err(e) => return Err(error::Error::IoError(e)),
+        };
+        rangecoder.stream.consume(n);
+        PR_LEN.store(n, Ordering::Relaxed);
+        PR_FIRST.store(b0, Ordering::Relaxed);
+        Ok(())
+    }
+}
